@@ -202,6 +202,22 @@ def parse_natlist(out):
     return [int(x.replace('%nat', '').strip()) for x in body.strip('[]').split(';') if x.strip()]
 
 
+def parse_coq_value(text):
+    """Parse `= <value> : type` printed by Eval for values made of Z, lists and
+    tuples into Python ints / lists / tuples (None if it does not parse)."""
+    m = re.search(r'=\s*(.*?)\s*:\s*[^:]*$', text, flags=re.S)
+    if not m:
+        return None
+    body = m.group(1).replace(';', ',').replace('%Z', '').replace('%nat', '')
+    body = re.sub(r'\bnil\b', '[]', body)
+    if not re.fullmatch(r'[\s\d,()\[\]\-]*', body):
+        return None
+    try:
+        return eval(body, {'__builtins__': {}})
+    except Exception:
+        return None
+
+
 # ---------------------------------------------------------------------------
 # Coq literals
 # ---------------------------------------------------------------------------
